@@ -324,14 +324,14 @@ var _ = asset.Snapshot{}
 var _ strategy.Action
 
 func c14(ctx *run.Ctx) {
-	base := baseStrats(ctx, ctx.Pick(1, 6))
+	base := baseStrats(ctx, ctx.Pick(1, 20))
 	var small []namedStrat
 	for _, b := range base {
 		if b.Warm <= 40 {
 			small = append(small, b)
 		}
 	}
-	all := append(append([]namedStrat(nil), base...), compoundStrats(ctx, small, ctx.Pick(3, 12))...)
+	all := append(append([]namedStrat(nil), base...), compoundStrats(ctx, small, ctx.Pick(3, 40))...)
 	for _, row := range reg.SortedStrats() {
 		ctx.Count("cmp:"+row.Name, 0)
 	}
